@@ -9,8 +9,9 @@
    are the tabulation (Create for a fresh half; C03_batch_arith for a reused valid batch).
 
    Scope: standard non-ADV batches (IAT batches are carried in the file but File.Validate does not
-   re-validate them — C03 known finding; ADV files are outside).  SegmentFile's own failure on the
-   known finding segment:batch-number-collision is a precondition here ([segment ... = SOk]). *)
+   re-validate them — C03 known finding; ADV files are outside).  That SegmentFile returns two
+   files is a precondition here ([segment ... = SOk]); it is a theorem for every valid file in
+   Props/C11General.v (the former finding segment:batch-number-collision is fixed). *)
 From Coq Require Import ZArith NArith List Bool.
 Import ListNotations.
 From ACH Require Import ValidOut ValidOutFacts Tables.
